@@ -17,7 +17,7 @@ RULE = ("Lab: all 2^24 colours (thorough) / 2^20 stratified (quick) vs a first-p
 ASSUMPTIONS = ["oracles/cielab.py derives the RGB->XYZ matrix from the Rec.709 primaries and D65 (0.3127,0.3290), exact CIE epsilon/kappa",
                "oracles/ciede2000.py reproduces the 34 published pairs to 5e-5 (self-test); the 34 pairs themselves are transcribed from the paper",
                "at the |h'1-h'2|=180 discontinuity both branches are admissible when a 0.03 Lab disagreement could flip the branch"]
-MUST_OBSERVE = {"any": ["lab_checked", "de_rgb_checked", "sharma_checked", "contract:calculate_delta_e_2000"]}
+MUST_OBSERVE = {"any": ["lab_checked", "de_rgb_checked", "sharma_checked"]}
 EXHAUSTIVE = {"thorough": ["Lab of all 2^24 colours", "34 published CIEDE2000 pairs"], "quick": ["34 published CIEDE2000 pairs"]}
 LAB_TOL = 0.05
 DE_TOL = 0.05
